@@ -118,7 +118,7 @@ class Simulation:
         self._events_cancelled: int = 0
 
         # Pre-run scheduled events — replayed on reset()
-        self._pre_run_event_specs: list[tuple[Instant, str, object, bool, dict]] = []
+        self._pre_run_event_specs: list[tuple[Instant, str, object, bool, dict, int]] = []
 
         # Control surface — lazy-created on first access
         self._control = None
@@ -213,12 +213,16 @@ class Simulation:
         for e in items:
             meta = e.context.get("metadata", {}) if e.context else {}
             self._pre_run_event_specs.append(
-                (e.time, e.event_type, e.target, e.daemon, dict(meta))
+                (e.time, e.event_type, e.target, e.daemon, dict(meta), e._sort_index)
             )
 
     def _replay_pre_run_events(self) -> None:
         """Recreate and push all events that were scheduled before the first run."""
-        for time, event_type, target, daemon, meta in self._pre_run_event_specs:
+        # Re-create the events in their original creation order (not the order in
+        # which they were passed to schedule()), so that events with equal
+        # timestamps are delivered in the same order as in the original run.
+        specs = sorted(self._pre_run_event_specs, key=lambda spec: spec[5])
+        for time, event_type, target, daemon, meta, _created in specs:
             ctx = {"metadata": dict(meta)} if meta else None
             fresh = Event(
                 time=time,
